@@ -94,6 +94,8 @@ def cavity_vector_probe(ctx, n: int) -> None:
 
 
 def run(ctx) -> None:
+    import context_probes as CP
+    CP.toggle_probe(ctx, "C10", ctx.n(16, 300))
     cavity_vector_probe(ctx, ctx.n(16, 300))
     run_track_correspondence(ctx, "C10", ctx.n(10, 250), kinds=["Aperture", "Aperture", "Screen", "Cavity", "BPM", "Drift"])
     run_stats_correspondence(ctx, "C10", ctx.n(80, 2000))
@@ -104,6 +106,9 @@ def run(ctx) -> None:
 def corpus_case(ctx, r: dict) -> None:
     if r.get("kind") == "cavity_vector":
         return cavity_vector_case(ctx.report, r)
+    if r.get("kind") == "toggle":
+        import context_probes as CP
+        return CP.toggle_case(ctx.report, "C10", r)
     if F is not None and hasattr(F, "corpus_case"):
         F.corpus_case(ctx, r)
 
